@@ -41,7 +41,9 @@ class ScaleSpec(SeqSpec):
         if "heap" in self.kinds:
             add({"kind": "pq-nan-keys"})
         if "last" in self.kinds:
-            for n, k in [(65536, 3), (65537, 3), (70000, 5), (131075, 2)] + ([(1 << 20, 7)] if big else []):
+            # long inputs with short tails, and LONG tails (a ring buffer that is allocated or grown in pieces)
+            for n, k in [(65536, 3), (65537, 3), (70000, 5), (131075, 2), (1025, 1025), (2199, 1100), (5000, 4096),
+                         (3000, 5000), (70000, 65537)] + ([(1 << 20, 7), (1 << 20, (1 << 19) + 1)] if big else []):
                 add({"kind": "last", "n": n, "k": k})
         if "do" in self.kinds:
             for n, p in [(4097, 2), (10001, 3), (40000, 0), (70001, 4)] + ([(300000, 7)] if big else []):
